@@ -56,10 +56,18 @@ func Range[M ~map[K]V, K comparable, V any](m M) iter.Seq2[K, V] {
 	}
 	return func(yield func(K, V) bool) {
 		keys := make([]K, 0, len(m))
-		for k := range m {
+		vals := map[int]V{} // values of keys that are not equal to themselves (NaN): they cannot be looked up again
+		for k, v := range m {
+			if k != k {
+				vals[len(keys)] = v
+			}
 			keys = append(keys, k)
 		}
-		sort.Slice(keys, func(i, j int) bool { return less(keys[i], keys[j]) })
+		idx := make([]int, len(keys))
+		for i := range idx {
+			idx[i] = i
+		}
+		sort.SliceStable(idx, func(i, j int) bool { return less(keys[idx[i]], keys[idx[j]]) })
 		call := e.Calls
 		e.Calls++
 		e.Sizes = append(e.Sizes, len(keys))
@@ -67,12 +75,16 @@ func Range[M ~map[K]V, K comparable, V any](m M) iter.Seq2[K, V] {
 		if e.Choose != nil {
 			perm = e.Choose(call, len(keys))
 		}
-		for i := range keys {
-			k := keys[i]
+		for i := range idx {
+			j := idx[i]
 			if perm != nil {
-				k = keys[perm[i]]
+				j = idx[perm[i]]
 			}
+			k := keys[j]
 			v, ok := m[k]
+			if k != k {
+				v, ok = vals[j], len(m) > 0 // such an entry only disappears when the whole map is cleared
+			}
 			if !ok {
 				continue
 			}
